@@ -554,3 +554,35 @@ def c18(ctx):
     ctx.rule = "one evaluation = one enum declaration run through both macro front-ends (macro sources of the working tree called as a library on token streams): random well-formed declarations (1-9 variants, six types, ids of 1-8 bytes and non-vint ids, paths of any depth with placeholders) and declarations broken by one rule (13 rules); the accepted ones are additionally compiled with the real macros and every declared id plus undeclared probe ids queried through the generated trait functions; distinct = distinct declarations; non-trivial = more than one variant"
     ctx.assumptions += ["DeriveDecl.tla (Accepts, Table) is the reference semantics of the declaration language; compile errors are observed as rejections of the macro implementation called as a library (diagnostic texts are not checked)",
                         "translation validation: generated code is observed through its trait functions on probe values, not by inspecting tokens"]
+
+
+
+# --------------------------------------------------------------------------- replay of a violation file
+TRACE_MODULE = {"reader": "ReaderTrace", "writer": "WriterTrace", "codec": "CodecTrace", "paths": "PathTrace", "derive": "DeriveTrace"}
+
+
+def replay(ctx, path):
+    """./check <id> --replay <file>: re-execute the recorded calls of the case against the current tree (reader and
+    writer cases), then validate the fresh trace against the property specification."""
+    lines = C.read_lines(path)
+    first = json.loads(lines[0]) if lines else {}
+    comp = first.get("comp", "codec" if first.get("ev") == "codec" else "reader")
+    tf = path
+    if comp in ("reader", "writer"):
+        tf = ctx.path("rerun.ndjson")
+        C.run_harness(["rerun", "--in", path, "--out", tf], timeout=600, allow_rc=(0,))
+        ctx.extra["replay"] = "re-executed against the current tree"
+    else:
+        ctx.extra["replay"] = "recorded events re-validated (this component's cases are not re-executed)"
+    if not C.read_lines(tf)[-1].startswith('{"ev":"end"'):
+        with open(tf, "a") as f:
+            f.write('{"ev":"end"}\n')
+    env = {"MODE": ctx.prop}
+    env.update({dv: "1" for dv in ctx.known})
+    tr = C.tlc_trace(ctx.prop + "_replay", TRACE_MODULE.get(comp, "ReaderTrace"), tf, None, ctx.devs, 600, "4g", env)
+    ctx.absorb(tr, tf, per_case=comp not in ("codec", "paths"))
+    ctx.count(path)
+    ctx.count(path + "#")
+    ctx.samples.append({"replayed": path})
+    ctx.rule = "replay of one recorded case"
+    ctx.mc.append({"name": "replay", "states": tr["states"], "transitions": tr["states"], "depth": tr["states"], "wall_s": tr["wall_s"], "cmd": tr["cmd"], "coverage": {}})
